@@ -271,6 +271,7 @@ func program(c Case) (setup, main string) {
 (defgeneric shared-gf (x))
 (defmethod shared-gf ((x fixnum)) (list 'fixnum x))
 (defmethod shared-gf ((x string)) (list 'string x))
+(defstruct (c17-pt (:print-function (lambda (p s d) (format s "<~A,~D>" (c17-pt-x p) (c17-pt-y p))))) x y)
 (defun definer (id) (vt:begin)
   (dotimes (i %d)
     (vt:sink id (shared-fn i))
@@ -279,7 +280,8 @@ func program(c Case) (setup, main string) {
     (vt:sink id (write-to-string (list id i (list "a" 'b 1.5 (list i i i) "cccccccccc") (list id id)) :pretty t :right-margin (+ 10 (mod (+ id i) 30))))
     (vt:sink id (prin1-to-string (list id i (+ 4000000 (* id 1000) i) "payload" 'done)))
     (vt:sink id (princ-to-string (list id i (+ 4000000 (* id 1000) i) "payload" 'done)))
-    (vt:sink id (format nil "~S|~A|~8D|~R" (list id "x" i) (list id "x" i) (+ (* id 1000) i) (+ (* id 1000) i))))
+    (vt:sink id (format nil "~S|~A|~8D|~R" (list id "x" i) (list id "x" i) (+ (* id 1000) i) (+ (* id 1000) i)))
+    (vt:sink id (write-to-string (make-c17-pt :x (+ 250 id) :y i) :base 16 :radix t)))
   (vt:end))
 `, c.M)
 		// every routine also (re)defines, three times, a method of the shared generic on a class of its own
@@ -557,7 +559,7 @@ func judge(c Case, scope *slip.Scope, val slip.Object) string {
 			return fmt.Sprintf("definitions made by the routines read back as %s, expected %s", g, w)
 		}
 		for id, items := range sinks {
-			const per = 7 // results per iteration
+			const per = 8 // results per iteration
 			if len(items) != 3*per*c.M {
 				return fmt.Sprintf("routine %d recorded %d results, expected %d", id, len(items), 3*per*c.M)
 			}
@@ -590,6 +592,9 @@ func judge(c Case, scope *slip.Scope, val slip.Object) string {
 					`(prin1-to-string (list %[1]d %[2]d (+ 4000000 (* %[1]d 1000) %[2]d) "payload" 'done))`,
 					`(princ-to-string (list %[1]d %[2]d (+ 4000000 (* %[1]d 1000) %[2]d) "payload" 'done))`,
 					`(format nil "~S|~A|~8D|~R" (list %[1]d "x" %[2]d) (list %[1]d "x" %[2]d) (+ (* %[1]d 1000) %[2]d) (+ (* %[1]d 1000) %[2]d))`,
+					// a structure with a print function, written under settings of its own: whatever the printer does to
+					// let the function see them must not be seen by the other routines
+					`(write-to-string (make-c17-pt :x (+ 250 %[1]d) :y %[2]d) :base 16 :radix t)`,
 				} {
 					ref := ev.Eval(scope, fmt.Sprintf(f, id, i))
 					if ref.Kind != ev.Value || sx.Text(ref.Val) != sx.Text(items[per*i+4+k]) {
